@@ -1104,7 +1104,8 @@ impl Formatter {
             Pattern::Literal(lit) => self.format_literal(lit),
             Pattern::Constructor(name, patterns) => {
                 self.writer.write(name);
-                if !patterns.is_empty() {
+                // `Name` alone is a binding: an unqualified constructor keeps its (empty) parentheses
+                if !patterns.is_empty() || !name.contains("::") {
                     self.writer.write("(");
                     for (i, p) in patterns.iter().enumerate() {
                         if i > 0 {
